@@ -544,6 +544,37 @@ pub fn c13(em: &mut Emit, thorough: bool, seed: u64) {
     let mut rng = Rng::new(seed ^ 0xC13);
     // multipart bodies whose exact length is around 2^64 (the checked arithmetic / 413 path)
     crate::suites_body::c06_huge(em, &mut rng, if thorough { 10_000 } else { 800 });
+    // modification times before the Unix epoch (files can carry them)
+    for (what, back) in [("1 ns", Duration::new(0, 1)), ("half a second", Duration::new(0, 500_000_000)),
+                         ("one second", Duration::new(1, 0)), ("ten years", Duration::new(315_576_000, 7))] {
+        for method in ["GET", "HEAD"] {
+            for cond in [None, Some("if-modified-since"), Some("if-unmodified-since"), Some("if-range")] {
+                let mut e = HEntity::new(10);
+                e.mtime = Some(UNIX_EPOCH - back);
+                let mut q = HReq::get();
+                q.method = method.to_string();
+                match cond {
+                    Some("if-modified-since") => q.ims = DateH::Secs(0),
+                    Some("if-unmodified-since") => q.ius = DateH::Secs(0),
+                    Some(_) => {
+                        q.if_range = Some(b"Thu, 01 Jan 1970 00:00:00 GMT".to_vec());
+                        q.range = Some(b"bytes=0-1".to_vec());
+                    }
+                    None => {}
+                }
+                e.etag = if back.as_secs() == 1 { Some(strong(b"x").render()) } else { None };
+                let o = observe_serve(&q, &e);
+                // served exactly like an entity without a modification time
+                let p = pred(
+                    !o.panicked
+                        && [200, 206].contains(&o.status)
+                        && !o.headers.iter().any(|(n, _)| n == "last-modified" || n == "date"),
+                    || format!("panicked={} status={} headers={:?}", o.panicked, o.status, o.headers),
+                );
+                em.case(&serve_line(&q, &e, o.now), &o.show(), &p, "pre-epoch-mtime");
+            }
+        }
+    }
     // malformed validators: not well-formed, so only model agreement and no panic
     let n = if thorough { 50_000 } else { 3_000 };
     for _ in 0..n {
